@@ -517,7 +517,7 @@ def _canon_text(doc):
     return json.dumps(canon_json(doc), sort_keys=True, allow_nan=False)
 
 
-def produce(path, files=(), sources=(), terms=(), max_units=800):
+def produce(path, files=(), sources=(), terms=(), max_units=800, shapes=()):
     """documents of this interpreter: one line {id, raw, norm} per code object / carrier"""
     from code_data import CodeData
 
@@ -564,6 +564,11 @@ def produce(path, files=(), sources=(), terms=(), max_units=800):
                     emit("t:%s:%s:%s" % (VER, tid, pos), carrier(v, pos))
                 except BaseException:  # noqa
                     pass
+        for sid, a in shapes:
+            try:
+                emit("shape:%s:%s" % (VER, sid), abs_code_data(a))
+            except BaseException:  # noqa
+                pass
     return n
 
 
